@@ -1,8 +1,8 @@
 """All jobs and the property table."""
-from . import jobs_util, jobs_perm, jobs_aead, jobs_spec, jobs_clean, jobs_hash, jobs_l2, native
+from . import jobs_util, jobs_perm, jobs_aead, jobs_spec, jobs_clean, jobs_hash, jobs_l2, jobs_prng, native
 
 JOBS = {}
-for mod in (jobs_util, jobs_perm, jobs_aead, jobs_spec, jobs_clean, jobs_hash, jobs_l2):
+for mod in (jobs_util, jobs_perm, jobs_aead, jobs_spec, jobs_clean, jobs_hash, jobs_l2, jobs_prng):
     for j in mod.JOBS:
         assert j["name"] not in JOBS, j["name"]
         JOBS[j["name"]] = j
@@ -190,6 +190,50 @@ PROPS["C14"] = {
     "text": "unbounded shape: block loop for every outlen (loop contract): block i is derived from salt || INT32BE(i) at every block, ceil(outlen/32) F evaluations, exactly outlen bytes written (exact-size object, last partial block through a local buffer); PRF-chain loop for every count (loop contract): exactly max(count,1) PRF evaluations per block. Bounded: end-to-end output == RFC 8018 over RFC 2104 over an arbitrary hash function on a grid of (passwordlen, saltlen, count, outlen).",
     "note": L2NOTE + "Grid: (8,4,1,32),(5,8,2,33),(64,8,3,1),(65,0,1,40),(0,0,0,31),(24,36,2,64),(63,5,2,0),(9,20,2,70). The block-loop proof fixes count to 0 and 1 (the chain code then folds away; the chain loop is closed separately for every count at outlen 40); in the shape proofs the HMAC API is a frame-only stub and PRF outputs landing in the unbounded output buffer are modelled at one arbitrary ghost index.",
     "technique": "CBMC loop contracts on the real pbkdf2 loops (protocol-counting callee stubs) + bounded end-to-end equivalence over contract stubs",
+    "trusted": TRUSTED,
+}
+
+for n, j in JOBS.items():
+    if n.startswith("prng."):
+        j["replay"] = native.lib_replay("prng")
+    if n.startswith("trng."):
+        j["replay"] = native.trng_replay
+PRNG_FN = [n for n in JOBS if n.startswith(("prng.generate.fn", "prng.ops.fn"))]
+PRNG_BUDGET = ["prng.generate.budget", "prng.set_limit", "prng.feed.budget", "prng.reseed.budget", "prng.init.budget"]
+PROPS["C15"] = {
+    "level": "proof",
+    "quick": PRNG_FN + ["prng.generate.budget"],
+    "campaign": native.lib_campaign("prng"),
+    "text": "per operation, from an arbitrary valid state (V, C symbolic), real tinyjambu-prng.c over the hash API's contract == documented Hash_DRBG: generate: each block = Hash(V), then V += Hash(3||V) + C + counter (256-bit big-endian add), counter + 1, automatic reseed exactly when counter > limit, entropy requests exactly there; feed: V' = Hash_df(1||V||data), C' = Hash_df(0||V'); reseed: V' = Hash_df(1||V||E), E = old V overwritten by the delivered bytes; instantiate: V = Hash_df(entropy||custom). Loop shape of generate for every size: prng.generate.budget (unbounded).",
+    "note": L2NOTE + "Sizes: generate {0,1,32,33,40,64,70} x (counter, limit, delivery) classes; feed {0,5,40}; deliveries {0,7,13,31,32,33,40}; custom {0,3,9}. Determinism over whole call histories is the representation-invariant meta-step (each operation verified from every valid state), stated, not checked by the tool.",
+    "technique": "CBMC: real code over contract stubs of the callee API (abstract hash) vs SP 800-90A reference; loop contract for the generate loop",
+    "trusted": TRUSTED,
+}
+PROPS["C16"] = {
+    "level": "proof",
+    "quick": PRNG_BUDGET,
+    "campaign": native.lib_campaign("prng"),
+    "text": "ghost counter B = blocks emitted since the last entropy request, maintained in the callee stubs: generate for EVERY size from an arbitrary valid state (1 <= limit <= 32768, counter >= 1, B <= counter - 1) emits every block within the budget B + 1 <= limit (checked before every block, so a lowered limit applies at the next block) and re-establishes the invariant; set_reseed_limit = clamp(ceil(limit/32), 1, 32768) for every size_t; feed / reseed / init preserve the invariant, feed never decreases the counter (saturating at 2^32 - 1 after the fix).",
+    "note": "on the pinned tree tinyjambu_prng_feed wrapped the 32-bit counter (finding F2, fixed by a 'fix:' commit, see known_findings.txt). Hash API = frame-only stubs (values irrelevant for the budget); callback = contract stub delivering arbitrary bytes.",
+    "technique": "CBMC loop contract with ghost budget counter in callee contract stubs",
+    "trusted": TRUSTED,
+}
+PROPS["C17"] = {
+    "level": "proof",
+    "quick": [n for n in JOBS if n.startswith("prng.ops.fn")] + ["prng.reseed.budget", "prng.init.budget"],
+    "campaign": native.lib_campaign("prng"),
+    "text": "init_user / reseed return 1 exactly when the source delivered 32 bytes (deliveries 0, 7, 13, 31, 32, 33, 40 and an arbitrary symbolic count in the budget jobs); after a short delivery the state is the specified function of the old state and the delivered bytes and valid(state) holds, so every later operation's contract applies; init_user(NULL callback) stores the system source, equals plain init state-for-state, returns the source's status, and later reseeds call the system source (no NULL call).",
+    "note": "on the pinned tree init_user called through the NULL argument (finding F1, fixed by a 'fix:' commit). 'Not constant output' is covered as 'output is the specified function of a state that depends on the old state'; entropy quality is not a contract matter. " + L2NOTE,
+    "technique": "CBMC: real code over contract stubs (scripted entropy callback / system source) vs reference",
+    "trusted": TRUSTED,
+}
+PROPS["C18"] = {
+    "level": "proof",
+    "quick": ["trng.getrandom", "trng.getentropy", "trng.syscall"] + [n for n in JOBS if n.startswith("prng.ops.fn")],
+    "campaign": native.trng_campaign,
+    "text": "tinyjambu_trng_generate in the getrandom(), getentropy() and raw-syscall build variants against a ghost fault script: for every finite sequence of EINTR/EAGAIN failures the retry loop terminates (loop contract, ghost fuel as measure) with exactly the 32 OS bytes and status 1; a permanent error gives status 0 and a zeroed buffer; one OS call per failure plus one; no open/close exists in these variants (no descriptor to leak); PRNG init maps the status to seeded / not seeded and stays usable (prng.ops.fn init_null).",
+    "note": "the libc/OS contract (32-byte requests are all-or-error, errno set on failure) is assumed in stubs/os_entropy.c; the /dev/urandom read() fallback is not selectable with this platform's headers and is out of scope.",
+    "technique": "CBMC loop contract with termination measure on the real retry loop; OS calls as contract stubs with a ghost fault script",
     "trusted": TRUSTED,
 }
 
